@@ -31,6 +31,7 @@ class Source:
     self._ast: Dict[str, ast.Module] = {}
     self.consulted: Dict[str, str] = {}
     self._pyfiles: Optional[List[str]] = None
+    self.inlined: Dict[str, int] = {}  # file -> number of private-helper call sites inlined before analysis
 
   # ------------------------------------------------------------------ files
   def exists(self, rel: str) -> bool:
@@ -80,6 +81,12 @@ class Source:
       tree = ast.parse(text, filename=rel)
     except SyntaxError as e:
       raise AnalysisError(f'cannot parse {rel}: {e}') from e
+    if os.environ.get('VZ_NO_INLINE') != '1' and not is_test_file(rel):
+      from vzstatic import inline
+      try:
+        self.inlined[rel] = inline.normalise(tree)
+      except RecursionError as e:  # pragma: no cover
+        raise AnalysisError(f'cannot normalise {rel}: {e}') from e
     set_parents(tree)
     tree._vz_file = rel  # type: ignore[attr-defined]
     for n in ast.walk(tree):
